@@ -115,6 +115,22 @@ def rule_marker_parent(ctx: Ctx, prog: Program) -> None:
         lv = Aff.atom(("lv", nb, loop.loop_id))
         ctx.ok("R-MARKER", f"{name}: awaited markers start at len(self.solvers)")
         done_lists = _completion_lists(prog, fn, loop)
+        # the flags that excuse finished workers must belong to THIS call: created (all false) before the receive loop of the same call.
+        # Flags kept on the object survive from one call to the next: after one complete call every worker is 'finished' for ever and a
+        # death during a later call is never noticed.
+        import ast as _ast
+        for dl in done_lists:
+            fresh = False
+            for st_ in _ast.walk(fn.node):
+                if isinstance(st_, _ast.Assign) and any(_ast.unparse(t) == dl for t in st_.targets) and st_.lineno < loop.node.lineno:
+                    v = st_.value
+                    if isinstance(v, _ast.ListComp) and isinstance(v.elt, _ast.Constant) and v.elt.value is False:
+                        fresh = True
+                    if isinstance(v, _ast.BinOp) and isinstance(v.left, _ast.List) and all(isinstance(x, _ast.Constant) and x.value is False for x in v.left.elts):
+                        fresh = True
+            _mv(ctx, fn, name, fresh, f"the completion flags '{dl}' are created all-false by this call, before its receive loop", f"completion-flags-fresh:{dl}",
+                f"{name}: the completion flags '{dl}' consulted by the liveness test are not (re)created all-false inside this call before the receive loop: "
+                "flags left over from an earlier call excuse every worker, so a worker dying during this call is never noticed")
         n_paths = 0
         for bp in loop.paths:
             mp = _message_parts(it, bp)
@@ -229,8 +245,8 @@ def _completion_lists(prog: Program, fn: FuncInfo, loop: LoopSummary) -> List[st
                 g: FuncInfo = r[1]
                 for pn in excusing_names(g.node, set(g.params)):
                     i = g.params.index(pn)
-                    if i < len(n.args) and isinstance(n.args[i], _ast.Name) and n.args[i].id not in names:
-                        names.append(n.args[i].id)
+                    if i < len(n.args) and isinstance(n.args[i], (_ast.Name, _ast.Attribute)) and _ast.unparse(n.args[i]) not in names:
+                        names.append(_ast.unparse(n.args[i]))
     local_lists = {t.id for s in _ast.walk(fn.node) if isinstance(s, _ast.Assign) for t in s.targets if isinstance(t, _ast.Name)}
     for nm in excusing_names(loop.node, local_lists):
         if nm not in names:
@@ -375,6 +391,26 @@ def rule_liveness(ctx: Ctx, prog: Program) -> None:
                               f"{name}: solutions.get() blocks without a timeout: once the remaining workers are dead the call never returns")
         if not gets:
             ctx.violation("R-LIVENESS", fn.path, name, "no-get", fn.loc(), f"{name}: no read of the result queue found")
+        # (iv) no unbounded wait on a worker handle: join() without a timeout blocks for as long as that worker lives -- on the error path
+        # (a sibling died, nobody reads the queue any more) a survivor blocked on a full pipe never exits
+        joins = []
+        for e in all_events:
+            if e.kind == "mcall" and e.name == "join" and id(e.node) not in {id(j.node) for j in joins}:
+                joins.append(e)
+        raise_nodes = {id(e.node) for r in p.res if r.outcome == "raise" for e in r.state.trace if e.kind == "mcall" and e.name == "join"}
+        raise_nodes |= {id(e.node) for r in p.res if r.outcome == "raise" for l in _all_loops(r.state.trace) for bp in l.paths for e in bp.events
+                        if e.kind == "mcall" and e.name == "join"}
+        for e in joins:
+            kw = dict(e.kwargs)
+            if "timeout" in kw or len(e.args) >= 1:
+                ctx.ok("R-LIVENESS", f"{name}: join is bounded in time")
+            elif id(e.node) not in raise_nodes:
+                # only reached after every completion marker was received: the workers are about to exit, joining them is ordinary tidying up
+                ctx.ok("R-LIVENESS", f"{name}: join without timeout only on the normal exit (all markers received)", nontrivial=False)
+            else:
+                ctx.violation("R-LIVENESS", fn.path, name, "unbounded-join", f"{fn.path}:{e.line}",
+                              f"{name}: a worker is joined without a timeout: if it is still running (and possibly blocked writing to a queue nobody reads "
+                              "any more) the call never returns, also when it is about to report a dead worker")
         # (iii) an exit edge that depends on a liveness query
         live_exit = False
         for l in p.loops:
